@@ -32,6 +32,12 @@ def read_options(bdir: str, keys: T.Sequence[T.Tuple[str, T.Optional[str]]], tim
                 out['__load_error__'] = f'{type(e).__name__}: {e}'
                 cd = None
             if cd is not None:
+                try:
+                    # every project option the store holds (so that options nobody asked about are seen too)
+                    out['__project_options__'] = sorted((f'{k.subproject}:{k.name}' if k.subproject else k.name)
+                                                        for k in cd.optstore.options if cd.optstore.is_project_option(k))
+                except BaseException as e:
+                    out['__project_options__'] = {'error': f'{type(e).__name__}: {e}'}
                 for name, sub in keys:
                     label = f'{sub}:{name}' if sub else name
                     try:
